@@ -6,6 +6,7 @@ import (
 	"fmt"
 	"go/types"
 	"sort"
+	"strconv"
 	"strings"
 
 	"golang.org/x/tools/go/ssa"
@@ -737,17 +738,27 @@ func (c *Ctx) checkFormat(fn *ssa.Function) bool {
 		}
 	})
 	sort.Slice(seq, func(i, j int) bool { return seq[i].pos < seq[j].pos })
-	want := []string{`const("[")`, "call(invoke reporting.Violation.GetCode; " + vD + ")", `const("] ")`, "call(invoke reporting.Violation.GetMessage; " + vD + ")"}
-	for i := 0; i+len(want) <= len(seq); i++ {
-		match := true
-		for j := range want {
-			if seq[i+j].desc != want[j] {
-				match = false
+	// the text written unconditionally, with the two accessors as placeholders: it must contain
+	// "[" <code> "] " <message> however the constant pieces are split over WriteString calls
+	var tmpl strings.Builder
+	for _, w := range seq {
+		switch {
+		case w.desc == "call(invoke reporting.Violation.GetCode; "+vD+")":
+			tmpl.WriteString("\x00CODE\x00")
+		case w.desc == "call(invoke reporting.Violation.GetMessage; "+vD+")":
+			tmpl.WriteString("\x00MSG\x00")
+		case strings.HasPrefix(w.desc, "const(\"") && strings.HasSuffix(w.desc, "\")"):
+			if u, err := strconv.Unquote(w.desc[len("const(") : len(w.desc)-1]); err == nil {
+				tmpl.WriteString(u)
+			} else {
+				tmpl.WriteString("\x00?\x00")
 			}
+		default:
+			tmpl.WriteString("\x00?\x00")
 		}
-		if match {
-			return okURL
-		}
+	}
+	if strings.Contains(tmpl.String(), "[\x00CODE\x00] \x00MSG\x00") {
+		return okURL
 	}
 	return false
 }
